@@ -61,6 +61,20 @@ def bio_seek_pos(n, p, offset, whence):
     return n + offset
 
 
+def bio_readlines(m, p):
+    ln = bio_readline(m, p, None)
+    if len(ln) == 0:
+        return []
+    return [ln] + bio_readlines(m, p + len(ln))
+
+
+def bio_readlines_step(m, p):       # one unfolding of bio_readlines (a lemma, proved as such)
+    ln = bio_readline(m, p, None)
+    if len(ln) == 0:
+        return []
+    return [ln] + bio_readlines(m, p + len(ln))
+
+
 def first_at(m, c, p):          # native twin of the speclib search primitive
     return m.find(bytes([c]), p)
 
@@ -128,6 +142,7 @@ FP_OK = "self.__fp is not None and self.__fp.data == self.ghost_data"
 class MemberContract(Contract):
     mode = "shared"
     modifies = ("self.__cur", "self.__fp", "self.__fp.pos")
+    field_types = {"_ArMember__fp": ("opt", ("obj", "BinaryIO"))}
 
     def setup(self, ex):
         st = MemberState()
@@ -201,6 +216,33 @@ class Readline(MemberContract):
         return {"size": VOpt(none, VInt(s))}
 
 
+class Readlines(MemberContract):
+    target = MOD + ":ArMember.readlines"
+    requires = (INV,)
+    ensures = (
+        "result == bio_readlines(%s, %s)" % (MEM, P0),
+        "self.__cur - self.__offset == bio_read_pos(%s, %s, None)" % (MEM, P0),
+    )
+    loops = {0: LoopSpec(
+        invariants=(
+            INV,
+            "lines + bio_readlines(%s, self.__cur - self.__offset) == bio_readlines(%s, %s)" % (MEM, MEM, P0),
+            "self.__cur >= old(self.__cur)",
+            "self.__cur <= self.__end or self.__cur == old(self.__cur)",
+            # unfolding lemma instance at the current position (valid by definition; it is an
+            # obligation of its own at establish / preserve and a hint where it is assumed)
+            "bio_readlines(%s, self.__cur - self.__offset) == bio_readlines_step(%s, self.__cur - self.__offset)" % (MEM, MEM),
+        ),
+        modifies=("self.__cur", "self.__fp", "self.__fp.pos"),
+        decreases="self.__end - self.__cur",
+        var_types={"buf": ("opt", "bytes"), "lines": ("list", "bytes")})}
+
+    def more_params(self, ex):
+        h = z3.Int(fresh_name("sizehint"))
+        self.extra_model_vars = [h]
+        return {"sizehint": VInt(h)}
+
+
 class Seek(MemberContract):
     target = MOD + ":ArMember.seek"
     modifies = ("self.__cur",)
@@ -223,6 +265,8 @@ def build_world():
     w = World(sl)
     for f in (bio_read, bio_read_pos, bio_readline, bio_seek_pos):
         w.spec_func(f)
+    w.spec_func(bio_readlines_step)
+    w.spec_func(bio_readlines, rec=dict(args=["view:bytes", "int"], ret=("list", "bytes")))
     w.spec_env["first_at"] = VFunc("builtin", "first_at", fn=_first_at_sym)
     return w
 
@@ -233,6 +277,7 @@ def contracts():
     cs += variants(Read)
     cs += variants(Readline)
     cs += variants(Seek)
+    cs += variants(Readlines)
     return cs
 
 
